@@ -741,6 +741,17 @@ class Serialization:
             out, val, serialization=self, subtypes=type_tree.subtypes
         )
 
+    def _names_unknown_codec(self, type_tree: SubtypeTree) -> bool:
+        """Does any name in a parsed type tree lack a codec?"""
+
+        pending = [type_tree]
+        while pending:
+            tree = pending.pop()
+            if tree.name not in self.codecs:
+                return True
+            pending.extend(tree.subtypes)
+        return False
+
     @staticmethod
     def _parse_type(type_name: str) -> SubtypeTree:
         """Given an encoded aux_data type_name, generate its parse tree.
@@ -844,6 +855,12 @@ class Serialization:
             all_bytes = raw_bytes
         else:
             all_bytes = raw_bytes.read()
+        if self._names_unknown_codec(parse_tree):
+            # the type names a codec we do not have: whether or not this
+            # particular value reaches it (an empty container or another
+            # variant alternative does not), keep the whole thing as a blob
+            # of bytes, so that it is written back exactly as it was read
+            return UnknownData(all_bytes)
         try:
             return self._decode_tree(
                 io.BytesIO(all_bytes), parse_tree, get_by_uuid
